@@ -188,7 +188,8 @@ def conv_arms(src, from_ty, to_ty, coqname):
                 if len(set(used)) != 1:
                     raise Untranslatable("From<&%s>::%s: field %s is built from %s" % (from_ty, srcv, fm.group(1), used))
                 pairs.append("(%s, %s)" % (coq_str(fm.group(1)), coq_str(used[0])))
-        rows.append("(%s, %s, [%s])" % (coq_str(srcv), coq_str(dstv), '; '.join(pairs)))
+        rows.append((srcv, "(%s, %s, [%s])" % (coq_str(srcv), coq_str(dstv), '; '.join(pairs))))
+    rows = [r[1] for r in sorted(rows, key=lambda r: r[0])]     # arms over distinct variants: canonical order
     return "Definition %s : list (list N * list N * list (list N * list N)) :=\n  [%s]." % (coqname, ';\n   '.join(rows))
 
 
@@ -291,6 +292,9 @@ def gen_hash_tags(src, attempt):
                 else:
                     args = [c[1].strip().lstrip('&').strip() for c in calls]
                     items.append("(%s, HTagChildren %d [%s])" % (coq_str(variant), tag, '; '.join(coq_str(a) for a in args)))
+            # match arms over distinct variants are order-free: emit them in a canonical order
+            # (stable sort by variant name), so that reordering arms in one copy changes nothing
+            items.sort(key=lambda it: it[:it.index(']')])
             lines.append("Definition %s_nodes : list (list N * hrule) :=\n  [%s]." % (coq, ';\n   '.join(items)))
             # hash_struct / hash_variant: per Data kind
             for fn, hashes_name_expected in (('hash_struct', False), ('hash_variant', True)):
@@ -308,6 +312,7 @@ def gen_hash_tags(src, attempt):
                     if kind is None:
                         raise Untranslatable("%s::%s: arm %s `%s`" % (modname, fn, variant, rhs))
                     items.append("(%s, %d, %s)" % (coq_str(variant), parse_num(tags[0]), kind))
+                items.sort(key=lambda it: it[:it.index(']')])
                 lines.append("Definition %s_%s : bool * list (list N * N * dchild) :=\n  (%s, [%s])." % (coq, fn, 'true' if hashes_name else 'false', '; '.join(items)))
             # hash_named_field: name bytes then type
             sig, body = find_fn(mod, 'hash_named_field')
@@ -395,6 +400,7 @@ def fmt_literals(fsrc, what):
         rows.append((m.group(1), [unescape(x) for x in LIT.findall(m.group(2))]))
 
     def tbl(name, rows):
+        rows = sorted(rows, key=lambda r: r[0])        # arms over distinct variants: canonical order
         return "Definition %s : list (list N * list (list N)) :=\n  [%s]." % (
             name, ';\n   '.join("(%s, [%s])" % (coq_str(k), '; '.join(coq_str(l) for l in ls)) for k, ls in rows))
     return tbl('fmt_lits', rows) + "\n" + tbl('fmt_data_lits', drows)
@@ -415,7 +421,7 @@ def gen_panic_arms(src, attempt):
 
     def table(path, fname, coq, what):
         def go():
-            rows = panic_arms(src(path), fname, 'OwnedDataModelType', what)
+            rows = sorted(panic_arms(src(path), fname, 'OwnedDataModelType', what), key=lambda r: r[0])   # canonical order
             return "Definition %s : list (list N * bool) :=\n  [%s]." % (coq, ';\n   '.join("(%s, %s)" % (coq_str(k), 'true' if p else 'false') for k, p in rows))
         return go
     out.append("(* which arms can panic (todo!/unreachable!/unwrap/...) *)")
